@@ -373,7 +373,7 @@ DedupKeepsSelfContained(N, P, x) ==
 (* the properties only constrain (clones, parsing, prefix repair,            *)
 (* deduplication) it is a relation between N and o.n.                        *)
 
-ElementOnlyOps == {"set_element_name", "set_attribute", "remove_attribute", "attr_insert", "attr_remove",
+ElementOnlyOps == {"attr_session", "ns_session", "set_element_name", "set_attribute", "remove_attribute", "attr_insert", "attr_remove",
     "attr_clear", "attr_get_mut", "attr_entry_or_insert", "attr_entry_or_insert_with", "attr_entry_or_default",
     "attr_entry_and_modify_or_insert", "attr_entry_occupied_insert", "attr_entry_occupied_remove",
     "attr_entry_vacant_insert", "set_namespace", "remove_namespace", "ns_insert", "ns_remove", "ns_clear",
@@ -447,6 +447,13 @@ EnumAllowed(e, N, cons) ==
             [] e.op = "set_attribute" -> {OutV(insA.n, <<>>, FALSE)}
             [] e.op = "remove_attribute" -> {OutV(remA.n, <<>>, FALSE)}
             [] e.op = "attr_insert" -> {OutV(insA.n, AttrVal(N, insA.old), insA.old # 0)}
+            \* two insertions through one mutable view: (ns, ln) := s, then ("", px) := "w" (the second result is returned)
+            [] e.op = "attr_session" ->
+                   LET second == MapInsert(insA.n, x, "attr", <<"", e.px>>, <<119>>, "") IN
+                   {OutV(second.n, AttrVal(insA.n, second.old), second.old # 0)}
+            [] e.op = "ns_session" ->
+                   LET second == MapInsert(insN.n, x, "nsn", <<"", e.ln>>, <<>>, "u3") IN
+                   {OutS(second.n, NsVal(insN.n, second.old), second.old # 0)}
             [] e.op = "attr_remove" -> {OutV(remA.n, AttrVal(N, remA.old), remA.old # 0)}
             [] e.op = "attr_clear" -> {OutV(MapClear(N, x, "attr"), <<>>, FALSE)}
             [] e.op = "attr_get_mut" ->
